@@ -40,6 +40,8 @@ def variant_params(draw, need_h=False, max_res=60):
                                              st.sampled_from([0.15, 0.25, 0.4])), max_size=6)),
             "extras": draw(st.booleans()), "rseed": draw(st.integers(0, 2 ** 31)),
             # order of the atoms inside every residue: as in the seed file (heavy atom before its hydrogens), or not
+            # force-field / non-standard residue names on residues with a complete backbone
+            "rename": draw(st.lists(st.tuples(st.integers(0, nres - 1), st.sampled_from(["CYX", "HID", "HIE", "ASH", "LYN", "UNK"])), max_size=2)),
             "atom_order": draw(st.sampled_from(["native", "native", "native", "reversed", "hydrogens-first", "shuffled"]))}
 
 
@@ -76,7 +78,7 @@ def build(p):
             keep.append(("new", r.atom(0).index))
         if k in p["delete_res"] and p["nres"] - len(p["delete_res"]) >= 4:
             continue
-        nr = top.add_residue(r.name, chain, resSeq=r.resSeq)
+        nr = top.add_residue(dict((i_, n_) for i_, n_ in (tuple(x) for x in p.get("rename", []))).get(k, r.name), chain, resSeq=r.resSeq)
         for a in ordered(r):
             if (k, a.name) in drop:
                 continue
